@@ -91,7 +91,50 @@ func c36Observe(kind string, returned *d2graph.Graph, fsys fs.FS, path string) (
 	return coq, impl, fails
 }
 
+// c36MovePanics: signature of the recorded crash of d2oracle.Move with includeDescendants: the moved
+// object is declared through a dotted key (a real element precedes its own element in a non-edge
+// reference), and the old and the new ID agree at some position (edit.go getCommonPath, which compares
+// position by position), so move() takes its "3. Extend" branch, which "does not make sense for
+// includeDescendants" (comment in edit.go) and slices ref.Key.Path out of range.
+func c36MovePanics(op *c37Op) bool {
+	if op.Kind != "move" || op.g12 == nil || !op.g12.Incl || op.g12.tgt == nil {
+		return false
+	}
+	t := op.g12.tgt
+	if op.g12.dest == t.Par {
+		return false
+	}
+	dotted := false
+	for _, ref := range t.obj.References {
+		if ref.InEdge() || ref.Key == nil || ref.MapKey == nil || len(ref.MapKey.Edges) != 0 {
+			continue
+		}
+		for j := 0; j < ref.KeyPathIndex; j++ {
+			if ref.Key.Path[j].Unbox().ScalarString() != "_" {
+				dotted = true
+			}
+		}
+	}
+	if !dotted {
+		return false
+	}
+	var ak2 []string
+	if op.g12.dest != nil {
+		ak2 = append(ak2, op.g12.dest.Path...)
+	}
+	ak2 = append(ak2, op.g12.name)
+	for i := 0; i < len(t.Path) && i < len(ak2); i++ {
+		if t.Path[i] == ak2[i] {
+			return true
+		}
+	}
+	return false
+}
+
 func c36KF(st *c41Step) []string {
+	if c36MovePanics(st.op) {
+		return []string{"C36-move-with-descendants-dotted-key-panics"}
+	}
 	return nil
 }
 
@@ -111,6 +154,7 @@ func c36EditCase(st *c41Step, class string, s int) (Case, bool) {
 			return c, false // refused: the property speaks about successful edits
 		}
 		c.Coq = fmt.Sprintf("KEdit %d true (%s) (%s) [] []", c36KindCode[op.Kind], c36EmptyTree, c36EmptyTree)
+		c.KF = c36KF(st)
 		return c, true
 	}
 	coq, impl, fails := c36Observe(op.Kind, st.res.g, nil, "")
